@@ -41,10 +41,14 @@ struct Aborted;
 
 impl Baton {
     pub fn new(threads: usize) -> Arc<Baton> {
+        Self::with_deadline(threads, Duration::from_secs(60))
+    }
+
+    pub fn with_deadline(threads: usize, segment_deadline: Duration) -> Arc<Baton> {
         Arc::new(Baton {
             st: Mutex::new(St { turn: None, stops: vec![Stop::NotStarted; threads], abort: false }),
             cv: Condvar::new(),
-            segment_deadline: Duration::from_secs(60),
+            segment_deadline,
         })
     }
 
